@@ -9,7 +9,9 @@
    parts  = w | k<n> | c<cut>.<cut>... | all1 | all2
    opts   = "-" or comma list of: trunc<n>, clr, auto
    Session form (several transfers on one zckDL, reset + new missing range before each):
-     S <ht> <doff> <chunks> <t>/<t>/... <opts>     t = <hdrs>:<body>:<parts>  (parts = w | k<n> | c<cut>.<cut>...) *)
+     S <ht> <doff> <chunks> <t>/<t>/... <opts>     t = <hdrs>:<body>:<parts>[:r]  (parts = w | k<n> | c<cut>.<cut>...;
+     :r = zck_find_valid_chunks + zck_reset_failed_chunks before this transfer); the line ends with I=<flags after
+     each transfer> *)
 let prng_bytes seed n =
   let x = ref (((seed * 2654435761) + 1) land 0xFFFFFFFF) in
   if !x = 0 then x := 1;
@@ -105,7 +107,16 @@ let run_partition (c : cs) (frags : string list) =
 
 (* several transfers on one zckDL: before each one zck_dl_reset + zck_get_missing_range + zck_dl_set_range
    (Dl/Session.v: dl_reset, missing_ridx); a transfer is (header lines, fragments), possibly cut short *)
-let run_session (c : cs) (transfers : (string list * string list) list) =
+let chunk_class (c : cs) file i =
+  let o = c.doff + c.starts.(i) and n = c.lens.(i) in
+  let b = sub_clip file o n in
+  if n = 0 then 'E' else if b = c.data.(i) then 'T'
+  else if String.length b = n && b = String.make n '\000' then 'Z'
+  else if b = sub_clip c.init_file o n then 'I' else 'O'
+let vstring (c : cs) file flags =
+  String.concat "," (List.mapi (fun i f -> Printf.sprintf "%d%c" f (chunk_class c file i)) flags)
+
+let run_session (c : cs) (transfers : (bool * string list * string list) list) =
   let dsz = match c.ht with 0 -> 20 | 1 -> 32 | 2 -> 64 | _ -> 16 in
   let h (b : n list) = bytes_of_string (Stubs.hash c.ht (string_of_bytes b)) in
   let nchunks = Array.length c.lens in
@@ -119,9 +130,16 @@ let run_session (c : cs) (transfers : (string list * string list) list) =
              x_boundary = None; x_rx = None } in
   let doff = n_of_int c.doff in
   let rets = Buffer.create 16 in
-  let xf = List.fold_left (fun (x, first) (hdrs, frags) ->
+  let snaps = ref [] in
+  let stopped = ref false in
+  let xf = List.fold_left (fun (x, first) (rs, hdrs, frags) ->
+    if !stopped then (x, first) else begin
     if not first then Buffer.add_char rets '/';
+    let x = if rs then rescan h doff x else x in
     let x = dl_reset x in
+    if x.x_dl.d_err then begin
+      (* zck_get_missing_range refuses a context in error state: the session ends here *)
+      Buffer.add_char rets 'E'; stopped := true; (x, false) end else
     let ridx = missing_ridx x.x_dl.d_tab in
     let x = List.fold_left (fun x l -> header_cb rx_comp rx_exec x (bytes_of_string l)) x hdrs in
     let rec go x = function
@@ -132,10 +150,12 @@ let run_session (c : cs) (transfers : (string list * string list) list) =
          | MOOB -> Buffer.add_char rets 'X'; x'
          | MFuel -> Buffer.add_char rets 'U'; x'
          | _ -> Buffer.add_char rets (if ok then '1' else '0'); if ok then go x' rest else x') in
-    (go x frags, false)) (x0, true) transfers |> fst in
+    let x = go x frags in
+    snaps := vstring c (string_of_bytes x.x_dl.d_file) (List.map (fun ch -> int_of_vflag ch.c_valid) x.x_dl.d_tab) :: !snaps;
+    (x, false) end) (x0, true) transfers |> fst in
   let file = string_of_bytes xf.x_dl.d_file in
   let flags = List.map (fun ch -> int_of_vflag ch.c_valid) xf.x_dl.d_tab in
-  (Buffer.contents rets, file, flags)
+  ((Buffer.contents rets, file, flags), String.concat ";" (List.rev !snaps))
 
 let describe (c : cs) (rets, file, flags) =
   let fill = List.filter (fun t -> c.flags.(t) <> 1) c.ridx_t in
@@ -231,12 +251,13 @@ let () = iter_lines (fun line ->
       let fill = List.filter (fun i -> c0.flags0.(i) = 0 && c0.lens.(i) > 0) (List.init (Array.length c0.lens) (fun i -> i)) in
       let c = { c0 with ridx_t = fill } in
       let ts = List.map (fun t -> match String.split_on_char ':' t with
-        | [hd; body; parts] ->
+        | hd :: body :: parts :: rest when List.length rest <= 1 ->
           let body = string_of_hex body in
-          (List.map string_of_hex (split_on ',' hd), frags_of_cuts body (cuts_of_parts parts (String.length body)))
+          (rest = ["r"], List.map string_of_hex (split_on ',' hd), frags_of_cuts body (cuts_of_parts parts (String.length body)))
         | _ -> failwith "transfer") (String.split_on_char '/' transfers) in
-      let (l, _) = describe c (run_session c ts) in
-      Printf.printf "%s | SPEC %s\n" l (lm_report ())
+      let (res, snaps) = run_session c ts in
+      let (l, _) = describe c res in
+      Printf.printf "%s I=%s | SPEC %s\n" l snaps (lm_report ())
     with Failure m -> Printf.printf "BADCASE %s\n" m)
   | ["M"; kind; bhex; shex] ->
     (* literal matcher vs glibc on one string: kind n = part-header pattern, e = closing delimiter, h = header line *)
